@@ -97,6 +97,19 @@ def check_axes(run, A):
                 continue
             v = const_val(ax)
             if v is NOVAL:
+                from ..walk import foreign_rank_axis
+                fr = foreign_rank_axis(ax, opnd)
+                if fr is not None:
+                    n += 1
+                    nm_ = cname.split(".")[-1].split(":")[-1]
+                    if fr[0] == 'foreign':
+                        run.violation('R-ELL', f'{short}: {nm_}(axis=<rank of another array>) counts from the right', fn.loc(t.node),
+                                      f'`{norm_stmt(t.node)[:110]}`: the axis is computed from the rank of `{norm_stmt(fr[1].node)[:40]}`, an array the operand is not derived from: it names '
+                                      f'the intended axis only while both happen to have the usual number of leading axes', construct=f'R-ELL::{fn.qual}::axis-foreign-rank::{cname}')
+                    else:
+                        run.unresolved('R-ELL', f'{short}: {nm_}(axis=<computed from a rank>) counts from the right', fn.loc(t.node),
+                                       f'`{norm_stmt(t.node)[:110]}`: the axis is computed from the rank of one of several arrays the operand combines (broadcasting): '
+                                       f'whether it is the intended axis for every admissible rank is not decided')
                 continue
             vals = v if isinstance(v, tuple) else (v,)
             if not all(isinstance(x, int) and not isinstance(x, bool) for x in vals):
